@@ -1,5 +1,5 @@
 import Qats.Model.Filter
-import Qats.Lemmas.RealOps
+import Qats.Lemmas.RealOpsSimp
 import Mathlib.Tactic
 /-!
 Main lemmas behind the C12 property theorems (statements fixed by `Qats/Props/C12.lean`).
@@ -12,9 +12,7 @@ open Qats
 
 /-! ### real interpretation of the operator classes -/
 
-@[simp] theorem tcos_real (x : ℝ) : (TranscOps.cos x : ℝ) = Real.cos x := rfl
-@[simp] theorem tsin_real (x : ℝ) : (TranscOps.sin x : ℝ) = Real.sin x := rfl
-@[simp] theorem tpi_real : (TranscOps.pi : ℝ) = Real.pi := rfl
+-- (`TranscOps.cos/sin/pi` over ℝ: the simp lemmas `cos_real`, `sin_real`, `pi_real` of `RealOpsSimp.lean`)
 
 theorem ipow_real (x : ℝ) (n : Nat) : ipow x n = x ^ n := by
   induction n with
@@ -22,13 +20,13 @@ theorem ipow_real (x : ℝ) (n : Nat) : ipow x n = x ^ n := by
   | succ n ih => simp only [ipow, ih]; ring
 
 theorem tan_real (x : ℝ) : Filter.tan x = Real.tan x := by
-  simp only [Filter.tan, tsin_real, tcos_real, Real.tan_eq_sin_div_cos]
+  simp only [Filter.tan, sin_real, cos_real, Real.tan_eq_sin_div_cos]
 
 theorem warp_real (dt g : ℝ) : warp dt g = Real.tan (Real.pi * g * dt) := by
-  simp only [warp, tan_real, tpi_real]
+  simp only [warp, tan_real, pi_real]
 
 theorem edge_real (wn : ℝ) : edge wn = Real.tan (Real.pi * wn / 2) := by
-  simp only [edge, tan_real, tpi_real]; norm_num
+  simp only [edge, tan_real, pi_real]; norm_num
 
 /-! ### Part 1: the shapes -/
 
@@ -489,7 +487,7 @@ theorem eval_eq (x : Signal ℝ) (t : ℝ) : x.eval t = x.mean + (x.comps.map fu
   foldr_eval _ _ _
 
 theorem eval_real (c : Comp ℝ) (t : ℝ) : c.eval t = c.amp * Real.sin (2 * Real.pi * c.freq * t + c.phase) := by
-  simp only [Comp.eval, tsin_real, tpi_real]
+  simp only [Comp.eval, sin_real, pi_real]
   norm_num
 
 theorem eval_mul_right (c : Comp ℝ) (k t : ℝ) : ({ c with amp := c.amp * k } : Comp ℝ).eval t = k * c.eval t := by
